@@ -42,6 +42,7 @@ fn esc(s: &str, out: &mut String) {
 struct Cx<'tcx> {
     tcx: TyCtxt<'tcx>,
     out: String,
+    owner: Option<LocalDefId>,
 }
 
 impl<'tcx> Cx<'tcx> {
@@ -187,6 +188,21 @@ impl<'tcx> Cx<'tcx> {
                 self.out.push_str(",\"t\":");
                 let t = self.ty_s(c.const_.ty());
                 esc(&t, &mut self.out);
+                // evaluated value of named integer constants (e.g. `HEADER_LEN`)
+                if c.const_.ty().is_integral() || c.const_.ty().is_bool() {
+                    if matches!(c.const_, Const::Unevaluated(..)) {
+                        if let Some(owner) = self.owner {
+                            let env = ty::TypingEnv::post_analysis(self.tcx, owner.to_def_id());
+                            let r = std::panic::catch_unwind(std::panic::AssertUnwindSafe(|| {
+                                c.const_.try_eval_scalar_int(self.tcx, env)
+                            }));
+                            if let Ok(Some(si)) = r {
+                                let bits = si.to_bits_unchecked();
+                                let _ = write!(self.out, ",\"v\":\"{}\"", bits);
+                            }
+                        }
+                    }
+                }
                 if let ty::FnDef(d, _) = c.const_.ty().kind() {
                     self.out.push_str(",\"fn\":");
                     let p = self.path(*d);
@@ -377,6 +393,7 @@ impl<'tcx> Cx<'tcx> {
 
     fn body(&mut self, def: LocalDefId, body: &Body<'tcx>) {
         let tcx = self.tcx;
+        self.owner = Some(def);
         let did = def.to_def_id();
         self.out.push('{');
         let p = self.path(did);
@@ -676,7 +693,7 @@ impl Callbacks for Cb {
         if crate_name.starts_with("build_script") {
             return Compilation::Continue;
         }
-        let mut cx = Cx { tcx, out: String::with_capacity(64 << 20) };
+        let mut cx = Cx { tcx, out: String::with_capacity(64 << 20), owner: None };
         cx.out.push('{');
         cx.kv_s("crate", &crate_name);
         cx.out.push(',');
